@@ -154,24 +154,27 @@ PRELUDE_SPEC = r"""
 From Coq Require Import Uint63.
 Definition n_of (i : int) : N := Z.to_N (Uint63.to_Z i).
 Definition st_of (n : N) : status := match n with 0 => StOk | 1 => StErr | _ => StPanic end.
-Definition octs (p : N) : list N := le_bytes (N.to_nat (p mod 8)) (p / 8).
+(* unpacking with shifts and masks (N.div/N.modulo are slow in vm_compute) *)
+Definition fld (x sh mask : N) : N := N.land (N.shiftr x sh) mask.
+Fixpoint lsb_octets (n : nat) (x : N) : list N :=
+  match n with O => [] | S k => N.land x 255 :: lsb_octets k (N.shiftr x 8) end.
+Definition octs (p : N) : list N := lsb_octets (N.to_nat (N.land p 7)) (N.shiftr p 3).
 Definition P_rt := Eval vm_compute in prep rt_spec rt_names.
 Definition P_usar := Eval vm_compute in prep usar_spec usar_names.
 Definition P_aa := Eval vm_compute in prep aa_spec aa_names.
 (* specification monitors applied to (input, what the implementation returned) *)
 Definition mon_dec (P : list (nat * N * N)) (minlen : nat) (inp obs : N) : bool :=
-  decode_mon P minlen (octs inp) (st_of (obs mod 4)) ((obs / 4) mod 4294967296) (obs / 17179869184).
+  decode_mon P minlen (octs inp) (st_of (N.land obs 3)) (fld obs 2 4294967295) (N.shiftr obs 34).
 Definition mon_enc (P : list (nat * N * N)) (f obs : N) : bool :=
-  encode_mon P f (obs / 137438953472) (st_of (obs mod 4))
-             (le_bytes (N.to_nat ((obs / 4) mod 8)) ((obs / 32) mod 4294967296)).
+  encode_mon P f (N.shiftr obs 37) (st_of (N.land obs 3)) (lsb_octets (N.to_nat (fld obs 2 7)) (fld obs 5 4294967295)).
 Definition mon_rt := mon_dec P_rt 2.
 Definition mon_aa := mon_dec P_aa 1.
 Definition mon_rtie := mon_enc P_rt.
 Definition mon_usar := mon_enc P_usar.
-Definition mon_srt (f0 r obs : N) : bool := srt_mon f0 r (st_of (obs mod 4)) (obs / 4).
+Definition mon_srt (f0 r obs : N) : bool := srt_mon f0 r (st_of (N.land obs 3)) (N.shiftr obs 2).
 Definition mon_sf (f0 m obs : N) : bool :=
-  let f1 := (obs / 4) mod 256 in
-  sf_mon f0 (negb (m =? 0)) (st_of (obs mod 4)) f1 && vol_ie_mon f1 ((obs / 1024) mod 256).
+  let f1 := fld obs 2 255 in
+  sf_mon f0 (negb (m =? 0)) (st_of (N.land obs 3)) f1 && vol_ie_mon f1 (fld obs 10 255).
 Fixpoint bad2 (f : N -> N -> bool) (ins obs : list int) (i cnt : N) (acc : list N) : N * list N :=
   match ins, obs with
   | a :: ins', b :: obs' =>
@@ -197,17 +200,21 @@ Fixpoint bads (f : N -> N -> bool) (enc : N -> N) (v : N) (obs : list int) (cnt 
 """
 
 PRELUDE_MODEL = r"""
-Definition pk_dec (names : list string) (tbl : list (string * N)) (r : ures) : N :=
-  match r with UOk f => 4 * (f + 4294967296 * accmask tbl names f) | UErr => 1 | UPanic => 2 end.
+(* accessor masks looked up once (accmask tbl names f = accmask_m (map (accessor_mask tbl) names) f by definition) *)
+Definition M_rt := Eval vm_compute in map (accessor_mask rpt_accessors) rt_names.
+Definition M_usar := Eval vm_compute in map (accessor_mask usar_accessors) usar_names.
+Definition M_aa := Eval vm_compute in map (accessor_mask act_accessors) aa_names.
+Definition pk_dec (M : list (option N)) (r : ures) : N :=
+  match r with UOk f => N.shiftl (f + N.shiftl (accmask_m M f) 32) 2 | UErr => 1 | UPanic => 2 end.
 Definition pk_enc (o : option (list N)) (am : N) : N :=
-  match o with Some p => 4 * N.of_nat (List.length p) + 32 * le_val p + 137438953472 * am | None => 2 end.
-Definition agr_rt (inp obs : N) : bool := pk_dec rt_names rpt_accessors (rt_unmarshal_res (octs inp)) =? obs.
-Definition agr_aa (inp obs : N) : bool := pk_dec aa_names act_accessors (aa_unmarshal_res (octs inp)) =? obs.
-Definition agr_rtie (f obs : N) : bool := pk_enc (rt_ie f) (accmask rpt_accessors rt_names f) =? obs.
-Definition agr_usar (f obs : N) : bool := pk_enc (usar_ie f) (accmask usar_accessors usar_names f) =? obs.
-Definition agr_srt (f0 r obs : N) : bool := 4 * set_reporting_trigger f0 r =? obs.
+  match o with Some p => N.shiftl (N.of_nat (List.length p)) 2 + N.shiftl (le_val p) 5 + N.shiftl am 37 | None => 2 end.
+Definition agr_rt (inp obs : N) : bool := pk_dec M_rt (rt_unmarshal_res (octs inp)) =? obs.
+Definition agr_aa (inp obs : N) : bool := pk_dec M_aa (aa_unmarshal_res (octs inp)) =? obs.
+Definition agr_rtie (f obs : N) : bool := pk_enc (rt_ie f) (accmask_m M_rt f) =? obs.
+Definition agr_usar (f obs : N) : bool := pk_enc (usar_ie f) (accmask_m M_usar f) =? obs.
+Definition agr_srt (f0 r obs : N) : bool := N.shiftl (set_reporting_trigger f0 r) 2 =? obs.
 Definition agr_sf (f0 m obs : N) : bool :=
-  let f1 := set_flags f0 (negb (m =? 0)) in 4 * f1 + 1024 * f1 =? obs mod 262144.
+  let f1 := set_flags f0 (negb (m =? 0)) in N.shiftl f1 2 + N.shiftl f1 10 =? N.land obs 262143.
 """
 
 
